@@ -81,6 +81,17 @@ CHECKS = {
              "and perft counts are NOT decided by static analysis.",
         design_ref="DESIGN.md section 4, C01",
         note=TB_COMMON + " Relies on C09 (attack tables) and C20 (move encoding). A sound legality fast path that bypasses the king-safety test would be reported (G4)."),
+    "C02": dict(
+        category="other",
+        technique="static analysis: inventory of all bitboard/right/counter updates in State::by_performing_move with their dominating branch conditions, "
+                  "path-sensitive extraction of the returned State fields (432 Ok paths), geometry oracle for corners and castle squares, guard analysis of the coordinate resolver",
+        text="Decides only structural clauses U0-U6: copy-make on a clone of the piece map, mover leaves origin/lands on destination, castling relocates the "
+             "mover's rook corner -> passed square on the king's rank, each right is and-ed with 'own rook on own corner' on the successor board and a king move "
+             "clears the mover's rights, en passant victim/target directions, captures clear the opposing colour / promotions replace the pawn, side to move and "
+             "both counters on every Ok path, and the resolver applies a move only under 'exactly one legal move matches' (else UnknownMove/AmbiguousMove). "
+             "Successor correctness over all (position, move) pairs and sequences is NOT decided.",
+        design_ref="DESIGN.md section 4, C02",
+        note=TB_COMMON + " Relies on C20 (move attributes) and C01 (legal move list). Other sound ways of maintaining rights (move-based instead of board-based) would be reported as unrecognised."),
 }
 
 NOT_BUILT_REASON = "check not built yet (see DESIGN.md for the plan)"
